@@ -25,8 +25,18 @@ CASES = [
     ("tensordot(axes pairs) RC", "lambda anp, x, y: anp.tensordot(x, y, axes=([0, 1], [1, 0]))", [((2, 3), "R"), ((3, 2, 2), "C")], (0, 1)),
     ("dot CC", "lambda anp, x, y: anp.dot(x, y)", [((2, 3), "C"), ((3,), "C")], (0, 1)),
     ("dot CR", "lambda anp, x, y: anp.dot(x, y)", [((2, 3), "C"), ((3, 2), "R")], (0, 1)),
+    ("dot RC 2-D", "lambda anp, x, y: anp.dot(x, y)", [((2, 3), "R"), ((3, 2), "C")], (0, 1)),
+    ("dot RC 1-D", "lambda anp, x, y: anp.dot(x, y)", [((3,), "R"), ((3,), "C")], (0, 1)),
+    ("matmul RC 2-D", "lambda anp, x, y: anp.matmul(x, y)", [((2, 3), "R"), ((3, 2), "C")], (0, 1)),
+    ("tensordot RC", "lambda anp, x, y: anp.tensordot(x, y, axes=([1], [0]))", [((2, 3), "R"), ((3, 2), "C")], (0, 1)),
+    ("inner RC 2-D", "lambda anp, x, y: anp.inner(x, y)", [((2, 3), "R"), ((2, 3), "C")], (0, 1)),
+    ("outer RC", "lambda anp, x, y: anp.outer(x, y)", [((2,), "R"), ((3,), "C")], (0, 1)),
+    ("einsum RC 2-D", "lambda anp, x, y: anp.einsum('ij,jk->ik', x, y)", [((2, 3), "R"), ((3, 2), "C")], (0, 1)),
+    ("kron CR", "lambda anp, x, y: anp.kron(x, y)", [((2, 2), "C"), ((2,), "R")], (0, 1)),
     ("matmul CC", "lambda anp, x, y: anp.matmul(x, y)", [((2, 2, 3), "C"), ((3, 2), "C")], (0, 1)),
     ("matmul RC", "lambda anp, x, y: x @ y", [((2, 3), "R"), ((3,), "C")], (0, 1)),
+    ("einsum list-form RC", "lambda anp, x, y: anp.einsum(x, [0, 1], y, [1, 2], [0, 2])", [((2, 3), "R"), ((3, 2), "C")], (0, 1)),
+    ("einsum list-form RC ellipsis", "lambda anp, x, y: anp.einsum(x, [Ellipsis, 0], y, [Ellipsis, 0], [Ellipsis])", [((3,), "R"), ((2, 3), "C")], (0, 1)),
     ("einsum CC", "lambda anp, x, y: anp.einsum('ij,jk->ik', x, y)", [((2, 3), "C"), ((3, 2), "C")], (0, 1)),
     ("einsum RC bcast", "lambda anp, x, y: anp.einsum('...i,...i->...', x, y)", [((3,), "R"), ((2, 3), "C")], (0, 1)),
     ("kron CC", "lambda anp, x, y: anp.kron(x, y)", [((2,), "C"), ((2, 2), "C")], (0, 1)),
